@@ -18,14 +18,6 @@ theorem keyed_eq_iff {α β γ : Type} {na : α → Option String} {nb : β → 
     · simp only [List.mem_append, not_or] at hm
       rw [byName_none.2 hm.1, byName_none.2 hm.2]; rfl
 
-theorem optAgree_iff {α β γ : Type} {eq : α → β → Bool} {va : α → γ} {vb : β → γ}
-    (h : ∀ x y, eq x y = true ↔ va x = vb y) (x : Option α) (y : Option β) :
-    (match x, y with
-      | none, none => true
-      | some x, some y => eq x y
-      | _, _ => false) = true ↔ x.map va = y.map vb := by
-  cases x <;> cases y <;> simp [h]
-
 theorem DefView.eq_iff {x y : DefView} : x = y ↔
     x.nPorts = y.nPorts ∧ x.nCables = y.nCables ∧ x.nInsts = y.nInsts ∧ (∀ nm, x.port nm = y.port nm) ∧
     (∀ nm, x.cable nm = y.cable nm) ∧ (∀ nm, x.inst nm = y.inst nm) := by
@@ -51,17 +43,6 @@ theorem defAgreeB_spec (a b : CNetlist) (oda odb : Option CDef) (da db : CDef) :
       keyed_eq_iff (va := fun _ => cableView a da) (vb := fun _ => cableView b db),
       keyed_eq_iff (va := fun k => instView a (origInstProps oda k)) (vb := fun k => instView b (origInstProps odb k))]
   tauto
-
-theorem optAgree_def {α β : Type} (eq : α → β → Bool) (x : Option α) (y : Option β) :
-    (match x, y with
-      | none, none => true
-      | some x, some y => eq x y
-      | _, _ => false) = (match x, y with
-      | none, none => true
-      | some x, some y => eq x y
-      | none, some _ => false
-      | some _, none => false) := by
-  cases x <;> cases y <;> rfl
 
 theorem libAgreeB_spec (a b : CNetlist) (ola olb : Option CLib) (la lb : CLib) :
     libAgreeB a b ola olb la lb = true ↔ libView a ola la = libView b olb lb := by
